@@ -16,7 +16,7 @@ RULE = (
     "exponents; parsing the category, quantity-type and unit-name strings (' * ', one ' / ', '(x) ** n') recovers "
     "every factor with its exponent (numerator factors first); all 6322 simple (category, unit) pairs render exactly "
     "their registered category, type, unit and unit name; repr/str/GetFormatted of Scalar, Array, FixedArray and "
-    "FractionScalar show GetUnit(). A plain number divided by a derived amount has the same factors with negated exponents; products and quotients of units of different quantity types whose names coincide up to case still list two factors. Arrays without values (list, tuple, ndarray) and over an ndarray show the unit as well. Non-trivial = >= 2 denominator factors or a repeated quantity type; distinct key "
+    "FractionScalar show GetUnit(). A plain number divided by a derived amount has the same factors with negated exponents; products and quotients of units of different quantity types whose names coincide up to case still list two factors. Arrays without values (list, tuple, ndarray) and over an ndarray show the unit as well. Quantities created through the list form ([(unit, exponent)] with a parallel tuple of categories, zero exponents included) hold the factors they were given. Non-trivial = >= 2 denominator factors or a repeated quantity type; distinct key "
     "= the composing map."
 )
 ASSUMPTIONS = ["composing units that are themselves compound symbols are excluded by the statement", "no registered category or unit name contains ' * ', ' / ' or ' ** ' (asserted at start)"]
@@ -208,7 +208,24 @@ class Checker:
                 q = r.GetQuantity()
                 self.ctx.cls("number_divided_by_amount")
         else:
-            q = Quantity.CreateDerived(OrderedDict((c, list(ue)) for c, ue in case["map"]))
+            if case["kind"] == "list":
+                # the list form: units as [(unit, exponent), ...] with a parallel tuple of categories; factors with
+                # exponent 0 may be written anywhere in it
+                from barril.units import ObtainQuantity
+
+                q = ObtainQuantity([(ue[0], ue[1]) for _c, ue in case["map"]], tuple(c for c, _ue in case["map"]))
+            else:
+                q = Quantity.CreateDerived(OrderedDict((c, list(ue)) for c, ue in case["map"]))
+            # the quantity holds the factors it was given: same categories, same units, same exponents, same order
+            # (a single factor with exponent 1 is the simple quantity)
+            given = [(c, ue[0], ue[1]) for c, ue in case["map"]]
+            nonzero = [g for g in given if g[2] != 0]
+            held = [(c, u, e) for c, (u, e) in q.GetCategoryToUnitAndExps().items()]
+            self.ctx.ev()
+            if held != given and [h for h in held if h[2] != 0] != nonzero:
+                self.ctx.fail("quantity_holds_other_factors_than_given:%s" % case["kind"], case, "asked for the factors %r, the quantity holds %r (category %r, unit %r)" % (given, held, q.GetCategory(), q.GetUnit()))
+            if any(g[2] == 0 for g in given):
+                self.ctx.cls("factor_with_exponent_zero_given")
         self.ctx.cls("kind_" + case["kind"])
         if not q.IsDerived():
             self.ctx.cls("collapsed_to_simple")
@@ -271,7 +288,16 @@ def _strategies(ch):
             qt = draw(pool.qt_strategy())
             out = [(pool.cats[qt][0], [pool.units[qt][0], -2])]
         order = draw(st.permutations(list(range(len(out)))))
-        return {"kind": "direct", "map": [out[i] for i in order]}
+        m = [out[i] for i in order]
+        if draw(st.integers(0, 2)) == 0:
+            return {"kind": "direct", "map": m}
+        # the list form; in half of the cases with a factor of exponent 0 somewhere in it
+        if draw(st.booleans()):
+            spare = [(qt, c) for qt in pool.qts for c in pool.cats[qt] if c not in used]
+            if spare:
+                qt, c = draw(st.sampled_from(spare[:40]))
+                m.insert(draw(st.integers(0, len(m))), (c, [units.get(qt) or pool.units[qt][0], 0]))
+        return {"kind": "list", "map": m}
 
     return st.one_of(tree.map(lambda t: {"kind": "tree", "tree": t}), st.tuples(tree, st.sampled_from([1, 1, 2])).map(lambda tr: {"kind": "tree", "tree": tr[0], "recip": tr[1]}), direct())
 
